@@ -212,6 +212,8 @@ func (m *machine) apply(cl Call) error {
 		ctx.DrawText(f(0), f(1), m.text)
 	case "DrawImage":
 		ctx.DrawImage(f(0), f(1), m.img, canvas.DPMM(1.0))
+	case "DrawImageHalf":
+		ctx.DrawImage(f(0), f(1), m.img, canvas.DPMM(0.5))
 	case "FitImageCover":
 		ctx.FitImage(image.NewRGBA(image.Rect(0, 0, 4, 6)), canvas.Rect{X0: f(0), Y0: f(1), X1: f(0) + 8, Y1: f(1) + 4}, canvas.ImageCover)
 	case "FitImageFill":
@@ -541,7 +543,7 @@ func hasViewCall(h []Call) bool {
 	for _, c := range h {
 		switch c.Op {
 		case "SetFill", "SetStroke", "SetStrokeWidth", "SetStrokeCapper", "SetStrokeJoiner", "SetDashes", "SetFillRule", "ResetStyle", "Push", "Pop", "SetZIndex",
-			"DrawPath", "DrawText", "DrawImage", "Fill", "Stroke", "FillStroke":
+			"DrawPath", "DrawText", "DrawImage", "DrawImageHalf", "Fill", "Stroke", "FillStroke":
 		default:
 			return true
 		}
@@ -597,7 +599,7 @@ func randCall(r *rand.Rand, theme int) Call {
 			case 2:
 				return Call{"SetCoordSystem", []int{r.Intn(4)}}
 			case 3:
-				return Call{"DrawImage", []int{ri(-2, 3), ri(-2, 3)}}
+				return Call{[]string{"DrawImage", "DrawImageHalf"}[r.Intn(2)], []int{ri(-2, 3), ri(-2, 3)}}
 			default:
 				return Call{[]string{"DrawPath", "DrawLine"}[r.Intn(2)], []int{ri(-2, 3), ri(-2, 3)}}
 			}
@@ -672,7 +674,7 @@ func randCall(r *rand.Rand, theme int) Call {
 	case 28:
 		return Call{[]string{"DrawPath", "DrawLine"}[r.Intn(2)], []int{ri(-2, 3), ri(-2, 3)}}
 	case 29:
-		return Call{[]string{"DrawText", "DrawImage", "FitImageCover", "FitImageFill"}[r.Intn(4)], []int{ri(-2, 3), ri(-2, 3)}}
+		return Call{[]string{"DrawText", "DrawImage", "DrawImageHalf", "FitImageCover", "FitImageFill"}[r.Intn(5)], []int{ri(-2, 3), ri(-2, 3)}}
 	case 30:
 		return Call{[]string{"Fill", "Stroke", "FillStroke"}[r.Intn(3)], nil}
 	case 31:
